@@ -434,6 +434,25 @@ func visitInstr(fr *frame, instr ssa.Instruction) continuation {
 	case *ssa.IndexAddr:
 		x := fr.get(instr.X)
 		idx := fr.get(instr.Index)
+		if si, isSym := idx.(*sym); isSym && onlyLoaded(instr) {
+			// table[i] with a symbolic i whose address is only ever loaded from: the element as one term
+			var elems value
+			switch xx := x.(type) {
+			case []value:
+				elems = array(xx)
+			case *value:
+				if a, ok := (*xx).(array); ok {
+					elems = a
+				}
+			}
+			if elems != nil {
+				if v, ok := symbolicByteIndex(fr, elems, si); ok {
+					cell := v
+					fr.setv(instr, &cell)
+					break
+				}
+			}
+		}
 		switch x := x.(type) {
 		case []value:
 			fr.setv(instr, &x[asInt64(idx)])
@@ -958,23 +977,39 @@ func symbolicByteIndex(fr *frame, x value, idx *sym) (value, bool) {
 		return nil, false
 	}
 	terms := make([]string, len(elems))
+	isBool := false
 	for k, e := range elems {
 		switch b := e.(type) {
 		case uint8:
 			terms[k] = bvConst(uint64(b), 8)
+		case bool:
+			isBool = true
+			terms[k] = "false"
+			if b {
+				terms[k] = "true"
+			}
 		case *sym:
-			if b.k != symBV || b.w != 8 {
+			if b.k == symBool {
+				isBool = true
+			} else if b.k != symBV || b.w != 8 {
 				return nil, false
 			}
 			terms[k] = b.e
 		default:
 			return nil, false
 		}
+		if isBoolTerm(e) != isBoolTerm(elems[0]) {
+			return nil, false
+		}
 	}
+	isBool = isBoolTerm(elems[0])
 	_, signed := kindWidth(idx.gk)
 	inRange := "(bvult " + idx.e + " " + bvConst(uint64(len(elems)), idx.w) + ")"
 	if signed {
 		inRange = "(and (bvsge " + idx.e + " " + bvConst(0, idx.w) + ") (bvslt " + idx.e + " " + bvConst(uint64(len(elems)), idx.w) + "))"
+	}
+	if !signed && idx.w < 64 && uint64(len(elems)) >= uint64(1)<<uint(idx.w) {
+		inRange = "true" // every value of the index type is a valid index
 	}
 	if !fr.i.cond(mkBool(inRange)) {
 		return nil, false // outside: the ordinary path concretises the index and faults like the runtime does
@@ -983,5 +1018,33 @@ func symbolicByteIndex(fr *frame, x value, idx *sym) (value, bool) {
 	for k := len(terms) - 2; k >= 0; k-- {
 		e = "(ite (= " + idx.e + " " + bvConst(uint64(k), idx.w) + ") " + terms[k] + " " + e + ")"
 	}
+	if isBool {
+		return simplifyBool(mkBool(e)), true
+	}
 	return &sym{e: e, k: symBV, w: 8, gk: types.Uint8}, true
+}
+
+func isBoolTerm(v value) bool {
+	switch b := v.(type) {
+	case bool:
+		return true
+	case *sym:
+		return b.k == symBool
+	}
+	return false
+}
+
+// onlyLoaded: every use of the address computed by instr is a load.
+func onlyLoaded(instr *ssa.IndexAddr) bool {
+	refs := instr.Referrers()
+	if refs == nil || len(*refs) == 0 {
+		return false
+	}
+	for _, r := range *refs {
+		u, ok := r.(*ssa.UnOp)
+		if !ok || u.Op != token.MUL {
+			return false
+		}
+	}
+	return true
 }
